@@ -527,7 +527,13 @@ def run_case(case, seed):
                 ds = []
         if ds:
             so = bool("mode" in a.dims and not O.compare_da(abs(a), abs(b), tol, k, attrs=False, name=False))
-            V.append(viol("presentation_dependent", model, "node %s%s%s: %s" % (node, " with weights" if case.get("weights") else "", " on the ragged base" if case.get("ragged") else "", "; ".join(ds[:2])), answer=k.split("_")[0], magnitudes_equal=so, weights=bool(case.get("weights")), ragged=bool(case.get("ragged")), **feats))
+            extra = {}
+            if spec == WIDE:  # size class of the deviation: a sketch-level difference (< 1e-2) or a gross one (wrong label, wrong sign)
+                import re
+
+                errs = [float(x) for d_ in ds for x in re.findall(r"max rel err ([0-9.eE+-]+)", d_)]
+                extra["deviation"] = "below_1e-2" if errs and max(errs) < 1e-2 and len(errs) == len(ds) else "gross"
+            V.append(viol("presentation_dependent", model, "node %s%s%s: %s" % (node, " with weights" if case.get("weights") else "", " on the ragged base" if case.get("ragged") else "", "; ".join(ds[:2])), answer=k.split("_")[0], magnitudes_equal=so, weights=bool(case.get("weights")), ragged=bool(case.get("ragged")), **feats, **extra))
     return dict(violations=V, outcome="violation" if V else "ok", nontrivial=not V, states=1, transitions=ndepth(node), traces=1, info=dict(depth=ndepth(node), sdims=node["sdims"], ragged=bool(case.get("ragged")), model=model))
 
 
